@@ -360,6 +360,12 @@ Proof.
   repeat stepwith callE.
 Qed.
 
+Lemma parseBracesStmt_reject n st :
+  gd st -> (6 * mu st + 4 <= n)%nat -> okres2 (NT st) true st (parseBracesStmt n st).
+Proof.
+  intros G B. unfold parseBracesStmt. pose proof parseEmbeddedCode_reject as IH. repeat stepwith callE.
+Qed.
+
 Lemma parseCondDirective_reject n mk st :
   gd st -> (6 * mu st + 4 <= n)%nat -> okres2 True true st (parseCondDirective n mk st).
 Proof.
@@ -415,7 +421,7 @@ Proof.
   induction n as [|f (IHs & IHbl & IHbs & IHbody & IHei & IHsl)].
   { unfold Rs, Rbl, Rbs, Rbody, Rei, Rsl. repeat split; intros; lia. }
   unfold Rs, Rbl, Rbs, Rbody, Rei, Rsl in *.
-  pose proof parseExpression_reject as L1. pose proof parseEmbeddedCode_reject as L2.
+  pose proof parseExpression_reject as L1. pose proof parseEmbeddedCode_reject as L2. pose proof parseBracesStmt_reject as L2b.
   pose proof parseCondDirective_reject as L3. pose proof parseDumpStmt_reject as L4.
   pose proof parseUseStmt_reject as L5. pose proof parseReserveStmt_reject as L6.
   pose proof parseSlotStmt_reject as L7.
